@@ -83,6 +83,7 @@ pub fn generate(rng: &mut Rng, thorough: bool) -> Vec<String> {
         let off = if rng.chance(1, 2) { "-".to_string() } else { rng.pick(&[0i128, 60, -60, 330, 345, -210, 840, -720, 1, -1, 1439, -1439]).to_string() };
         v.push(format!("f_inst {ins} {off} {p} {su} {mo}"));
         v.push(format!("rt_inst {ins}"));
+        v.push(format!("rt_insto {ins} {}", rng.pick(&[0i128, 60, -60, 330, 345, -210, 840, -720, 1, -1, 30, -30, 59, -59, -45, 1439, -1439])));
         let offz = *rng.pick(&[0i128, 60, -60, 330, 345, -210, 840, -720, 1, -1, 1439, -1439]);
         v.push(format!("f_zdt {ins} {offz} {} {} {p} {su} {mo} {cal} {sh}", rng.pick(&["auto", "never"]), rng.pick(&["auto", "never", "critical"])));
         v.push(format!("rt_zdt {ins} {offz} {cal}"));
@@ -213,6 +214,17 @@ pub fn eval(t: &[&str]) -> Option<String> {
             let tz = if t[2] == "-" { None } else { let m = i(t[2]); Some(TimeZone::try_from_str(&format!("{}{:02}:{:02}", if m < 0 { '-' } else { '+' }, m.abs() / 60, m.abs() % 60)).ok()?) };
             out(Instant::try_new(i(t[1])).and_then(|x| x.to_ixdtf_string_with_provider(tz.as_ref(), opts(t[3], t[4], t[5]), &p)))
         }
+        "rt_insto" => law(Instant::try_new(i(t[1])).and_then(|x| {
+            // an Instant written with a fixed-offset zone (numeric offset instead of Z) and read back, and read back
+            // from the text of the ZonedDateTime at that instant
+            let m = i(t[2]);
+            let tz = TimeZone::try_from_str(&format!("{}{:02}:{:02}", if m < 0 { '-' } else { '+' }, m.abs() / 60, m.abs() % 60))?;
+            let s = x.to_ixdtf_string_with_provider(Some(&tz), ToStringRoundingOptions::default(), &p)?;
+            let back = Instant::from_str(&s)?;
+            let z = ZonedDateTime::try_new(i(t[1]), Calendar::default(), tz)?;
+            let back2 = Instant::from_str(&z.to_string_with_provider(&p)?)?;
+            Ok(back == x && back2 == x)
+        })),
         "rt_inst" => law(Instant::try_new(i(t[1])).and_then(|x| {
             let s = x.to_ixdtf_string_with_provider(None, ToStringRoundingOptions::default(), &p)?;
             let back = Instant::from_str(&s)?;
